@@ -67,6 +67,8 @@ var c16Templates = []string{
 	`-12.0E-1`,
 	`{"a":"😀","b":false}`,
 	`[{"k" : {"n" :[1 ,2]}}]`,
+	// backslash-u escapes (value, surrogate pair, member name) and short escapes: every hex-digit position can be overwritten
+	"[\"\\" + "u00e9\\" + "uD83D\\" + "uDE00\",{\"\\" + "u0041\":\"\\\\\\/\\b\"}]",
 }
 
 // H_C16_Template: a well-formed template with k unconstrained bytes inserted at (mode 0) or overwriting from
@@ -147,6 +149,7 @@ func H_C16_Gates() {
 	})
 	vx.Note("text", text)
 	vx.Assert(!panicked, "C04/gates-no-panic")
+	vx.Assert(!panicked, "C16/gates-return")
 	if panicked {
 		vx.Note("panic", []byte(vx.PanicMsg()))
 		return
